@@ -242,6 +242,14 @@ class VVersion(Val):
     def __init__(self, a, b, c):
         self.a, self.b, self.c = a, b, c
 
+    def getattr(self, ex, p, attr, node=None):
+        """Version.major / .minor / .micro of an a.b.c release (part of the assumed contract of packaging)"""
+        comp = {'major': self.a, 'minor': self.b, 'micro': self.c}.get(attr)
+        if comp is None:
+            from .engine import EngineError
+            raise EngineError(f'attribute {attr} of a packaging Version')
+        yield p, VInt(comp)
+
 
 class VOpaque(Val):
     """A value the executor only carries around (e.g. a port-tuple element)."""
